@@ -21,6 +21,7 @@ impl<S: Storage> TaskDb<S> {
         let ghost s0 = txn.st();
         apply::apply_operations(&mut *txn, &operations)?;
         let ghost s1 = txn.st();
+        //@props C15
         let mut to_add = Vec::new();
         for operation in it_operation: &operations
             invariant
@@ -130,6 +131,7 @@ impl<S: Storage> TaskDb<S> {
                 }
             }
         }
+        //@props C05
         let ghost s2 = txn.st();
         proof { assert(s2.unsynced + ops0.take(0) =~= s2.unsynced); }
         for operation in it_operation2: operations
